@@ -141,6 +141,14 @@ def gen_conv_cases(rng, tier, space, channel, signed_bcoh=False, force_pos=False
                 base_ = 1.0 if names[a] in ("S", "g") else 0.0
                 amp_ = rng.choice([1e-9, 1e-11, 1e-13])
                 vk, y = "tiny signal", [base_ + amp_ * rng.uniform(-2, 2) for _ in range(n)]
+            if nonfinite_dy and rep % 6 == 4 and n >= 2:
+                dk, dy = "extreme magnitudes", [rng.logu(1e-3, 1.0) * (1e-200 if (a + b) % 2 else 1e180) for _ in range(n)]
+            if nonfinite_dy and rep % 6 == 5 and n >= 2:
+                y = list(values(rng, n, "around1"))
+                y[n // 2] = [float("nan"), float("inf"), -float("inf")][(a + b) % 3]
+                vk = "around1+nonfinite sample"
+                if (a * 3 + b) % 2 == 0:
+                    dk, dy = "none", None
             m = material(rng, signed_bcoh)
             # integer-typed arrays with the same values must behave like floating ones
             idt = [False, False, False]
